@@ -69,7 +69,9 @@ def work(job):
     ref_ps = None
     try:
         import srcexport, refine
-        if refine.refine(prog["src"], base, timeout=25)["status"] == "closed":
+        # (not for programs that read $last: when a pending action or condition observes the last byte may shift by one
+        #  position — the documented slack — and a concrete run of the reference has to pick one)
+        if "$last" not in prog["src"] and refine.refine(prog["src"], base, timeout=25)["status"] == "closed":
             ref_ps = srcexport.export_source(prog["src"])
     except Exception:
         ref_ps = None
